@@ -34,7 +34,7 @@ ASSUMPTIONS = [
 ]
 TRUSTED = ["harness/p11emu.py token emulator", "harness/ceremony_run.py entry-point driver"]
 
-VARIANTS = ["honest", "replayed", "gapped", "re-keyed", "wrong-first-keys", "late", "gap-declared-negative-min"]
+VARIANTS = ["honest", "replayed", "gapped", "re-keyed", "wrong-first-keys", "late", "gap-declared-negative-min", "re-keyed-same-ids", "honest-stale-config-prev", "replayed-stale-config-prev"]
 T0 = datetime(2024, 1, 1, tzinfo=timezone.utc)
 
 
@@ -53,12 +53,13 @@ def example_schemas() -> dict[str, dict[int, dict[str, list[str]]]]:
 class Quarter:
     """The state after an accepted ceremony: its SKR file, its quarter number, the ZSK generation."""
 
-    def __init__(self, skr_xml: bytes | None, q: int, path: tuple[str, ...], last_exp: datetime, req_id: str = "req-q0") -> None:
+    def __init__(self, skr_xml: bytes | None, q: int, path: tuple[str, ...], last_exp: datetime, req_id: str = "req-q0", parent_xml: bytes | None = None) -> None:
         self.skr_xml = skr_xml
         self.q = q
         self.path = path
         self.last_exp = last_exp  # expiration of the last bundle of this SKR
         self.req_id = req_id  # the request id this SKR answers (and echoes)
+        self.parent_xml = parent_xml  # the SKR before this one (a stale file a configuration may still name)
 
 
 def scenario_for(q: int, schema: dict[int, dict[str, list[str]]], variant: str, prev_q: int, prev_last_exp: datetime | None = None, prev_req_id: str | None = None) -> S.Scenario:
@@ -79,6 +80,9 @@ def scenario_for(q: int, schema: dict[int, dict[str, list[str]]], variant: str, 
     sc.zsks = [(f"Z{(gen + i)}", zs[i], 8) for i in range(3)]
     if variant == "re-keyed":
         sc.zsks = [(f"R{(gen + i)}", zs[i], 8) for i in range(3)]
+    if variant == "re-keyed-same-ids":  # new key material under the identifiers the previous SKR chained
+        zz = [z[(gen + 3) % 8], z[(gen + 4) % 8], z[(gen + 5) % 8]]
+        sc.zsks = [(f"Z{(gen + i)}", zz[i], 8) for i in range(3)]
     sc.layout = [[0, 1]] + [[1]] * 7 + [[1, 2]]
     if variant == "wrong-first-keys":
         sc.layout = [[1, 2]] + [[1]] * 7 + [[1, 2]]  # first bundle carries a key the previous last bundle did not
@@ -93,8 +97,8 @@ def scenario_for(q: int, schema: dict[int, dict[str, list[str]]], variant: str, 
     if variant == "late":
         start = base + timedelta(days=1)  # overlap 10 d: still inside the declared window
     sc.start = start
-    sc.req_id = f"req-q{q}" + ("" if variant == "honest" else f"-{variant}")
-    if variant == "replayed" and prev_req_id is not None:
+    sc.req_id = f"req-q{q}" + ("" if variant.startswith("honest") else f"-{variant}")
+    if variant.startswith("replayed") and prev_req_id is not None:
         sc.req_id = prev_req_id  # the id the previous SKR echoes
     sc.meta = {"q": q, "variant": variant}
     return sc
@@ -167,8 +171,10 @@ def run(tier: str, driver_ok: bool) -> Result:
                 combos = [(n, "honest") for n in names]
                 rot = names[(len(st.path) + st.q) % len(names)]
                 combos += [(rot, v) for v in VARIANTS[1:]]
+                honest_outcome: dict[str, Any] = {}
                 if depth >= 3:
-                    combos = r.sample(combos, min(len(combos), 4 if tier == "quick" else 8))
+                    keep = [(rot, "honest"), (rot, "honest-stale-config-prev")]
+                    combos = keep + r.sample([c for c in combos if c not in keep], min(len(combos) - 2, 3 if tier == "quick" else 8))
                 for sname, variant in combos:
                     if executed >= budget:
                         break
@@ -181,7 +187,13 @@ def run(tier: str, driver_ok: bool) -> Result:
                         a0 = ksr_xml.index("<MinValidityOverlap>")
                         a1 = ksr_xml.index("</MinValidityOverlap>")
                         ksr_xml = ksr_xml[:a0] + "<MinValidityOverlap>P0D-86400" + ksr_xml[a1:]
-                    o = R.run_ceremony(sc, work, answer="Yes", prev_xml=st.skr_xml.decode(), ksr_xml=ksr_xml)
+                    if variant.endswith("stale-config-prev"):
+                        # the configuration still names the SKR before the previous one; the command line names the right file
+                        if st.parent_xml is None:
+                            continue
+                        o = R.run_ceremony(sc, work, answer="Yes", prev_xml=st.parent_xml.decode(), prev_cli_xml=st.skr_xml.decode(), ksr_xml=ksr_xml)
+                    else:
+                        o = R.run_ceremony(sc, work, answer="Yes", prev_xml=st.skr_xml.decode(), ksr_xml=ksr_xml)
                     case = {"path": list(st.path), "schema": sname, "variant": variant, "quarter": q}
                     o["case"] = case
                     runs.append(o)
@@ -193,7 +205,12 @@ def run(tier: str, driver_ok: bool) -> Result:
                     res.bump("outcome:" + ("accepted" if ok else str(next(iter(out.values())))))
                     if ok != o["written"]:
                         res.violation("result and write disagree", case, key="write", outcome=out)
-                    if variant in ("replayed", "gapped", "re-keyed", "wrong-first-keys", "gap-declared-negative-min") and ok:
+                    if variant == "honest":
+                        honest_outcome[sname] = out
+                    if variant == "honest-stale-config-prev" and sname in honest_outcome and not lib.same_outcome(out, honest_outcome[sname]):
+                        # which file the CONFIGURATION names must not matter when the command line names the previous SKR
+                        res.violation("outcome is not that of the documented rules applied to the actual previous output", case, key="stale-config-prev", outcome=out, outcome_with_only_the_right_file=honest_outcome[sname])
+                    if variant in ("replayed", "gapped", "re-keyed", "wrong-first-keys", "gap-declared-negative-min", "re-keyed-same-ids", "replayed-stale-config-prev") and ok:
                         res.violation("a replayed / gapped / re-keyed / unchained KSR was accepted", case, key="accepted:" + variant, outcome=out)
                     if o["written"]:
                         new_xml = o["file_after"]
@@ -206,7 +223,7 @@ def run(tier: str, driver_ok: bool) -> Result:
                         bad = neighbour_broken(st.skr_xml, sc.request(), new_xml)
                         if bad:
                             res.violation("accepted SKRs are not neighbours on one timeline", case, key=bad[0].split()[0] + ":" + variant, broken=bad)
-                        nxt.append(Quarter(new_xml, q, st.path + (f"{sname}/{variant}",), sc.start + timedelta(days=101), sc.req_id))
+                        nxt.append(Quarter(new_xml, q, st.path + (f"{sname}/{variant}",), sc.start + timedelta(days=101), sc.req_id, st.skr_xml))
                     if len(res.samples) < 3 and (ok or variant == "gapped"):
                         res.sample({"case": case, "outcome": out, "token_ops": len(o["log"])})
             # keep the frontier small but varied
@@ -223,7 +240,8 @@ def run(tier: str, driver_ok: bool) -> Result:
                     res.disagreement("ksrsigner: driver error", x["case"], x["outcome"], m)
                     continue
                 if lib.is_unsupported(m["result"]):
-                    res.unsupported += 1
+                    # nothing here is outside the modelled domain: the model left the recorded run (replay / oracle miss)
+                    res.disagreement("ksrsigner: the model could not follow the implementation's run (it expects other token operations / oracle questions)", x["case"], x["outcome"], m["result"], log_difference=C.first_log_difference(x["log"], m["log"]))
                     continue
                 if not lib.same_outcome(x["outcome"], m["result"]):
                     res.disagreement("ceremony outcome differs from the documented rules applied to the actual previous output", x["case"], x["outcome"], m["result"])
